@@ -1060,6 +1060,45 @@ static void mode_shape(int Ls, uint64_t nrandom) {
 }
 
 /* ------------------------------------------------------------------ */
+
+/* links that do not carry exactly one sibling field (none, or two / three of imprint, legacy id, metadata) can only be built
+ * through the setter API; they have no KSI root: both aggregate entry points must refuse them and leave the outputs alone */
+static void malformed_links(uint64_t rounds) {
+	uint64_t rnd;
+	for (rnd = 0; rnd < rounds; rnd++) {
+		RLink l[4]; unsigned char in[80]; size_t in_len, n = 1 + vh_below(4), bad = vh_below((uint32_t)n), i; int combo = (int)vh_below(5), mr = 0, lvl = -12345, res, start = (int)vh_below(3);
+		KSI_HashChainLinkList *lst = NULL; KSI_DataHash *inh = NULL, *root = NULL; KSI_HashChainLink *k = NULL; KSI_AggregationHashChain *obj;
+		static const char *const COMBO[] = {"no-sibling", "imprint+legacy", "imprint+metadata", "legacy+metadata", "all-three"};
+		memset(l, 0, sizeof l);
+		{ RLink t; memset(&t, 0, sizeof t); gen_sib_imprint(&t, 1); memcpy(in, t.sib, t.sib_len); in_len = t.sib_len; link_clear(&t); }
+		for (i = 0; i < n; i++) { l[i].isLeft = (int)vh_below(2); gen_sibling(&l[i], SIB_IMPRINT, 0, 0); }
+		lst = lib_list(l, n, 0, &mr); inh = lib_hash(in, in_len);
+		if (!lst || !inh || KSI_HashChainLinkList_elementAt(lst, bad, &k) != KSI_OK || !k) { KSI_HashChainLinkList_free(lst); KSI_DataHash_free(inh); for (i = 0; i < n; i++) link_clear(&l[i]); continue; }
+		{
+			KSI_DataHash *old = NULL; KSI_OctetString *leg = NULL; KSI_MetaDataElement *md = NULL; RLink t; int mr2 = 0;
+			if (combo == 0 || combo == 3) { KSI_HashChainLink_getImprint(k, &old); KSI_HashChainLink_setImprint(k, NULL); KSI_DataHash_free(old); }   /* the setter only stores the pointer */
+			if (combo == 1 || combo == 3 || combo == 4) { unsigned char *e; memset(&t, 0, sizeof t); gen_sib_legacy(&t); e = vh_exact(t.sib, t.sib_len); if (KSI_OctetString_new(ctx, e, t.sib_len, &leg) == KSI_OK) KSI_HashChainLink_setLegacyId(k, leg); vh_exact_free(e, t.sib_len); link_clear(&t); }
+			if (combo == 2 || combo == 3 || combo == 4) { memset(&t, 0, sizeof t); gen_sib_meta(&t, 0, 0); md = lib_meta(&t, &mr2); if (md) KSI_HashChainLink_setMetaData(k, md); link_clear(&t); }
+		}
+		vh_eval++;
+		res = KSI_HashChain_aggregate(ctx, lst, inh, start, KSI_HASHALG_SHA2_256, &lvl, &root);
+		if (res == KSI_OK || root != NULL) { char key[96]; snprintf(key, sizeof key, "HashChain_aggregate:malformed-link-accepted:%s", COMBO[combo]); vh_viol(key, g_cmd, "chain of %zu links, link %zu carries %s: res=0x%x, root %s, level %d", n, bad, COMBO[combo], res, root ? "set" : "NULL", lvl); }
+		else vh_count("malformed_links_refused", 1);
+		KSI_DataHash_free(root); root = NULL; lvl = -12345;
+		obj = lib_aggr_obj(lst, in, in_len, 1);
+		if (obj) {
+			vh_eval++;
+			res = KSI_AggregationHashChain_aggregate(obj, start, &lvl, &root);
+			if (res == KSI_OK || root != NULL) { char key[96]; snprintf(key, sizeof key, "AggregationHashChain_aggregate:malformed-link-accepted:%s", COMBO[combo]); vh_viol(key, g_cmd, "chain object of %zu links, link %zu carries %s: res=0x%x", n, bad, COMBO[combo], res); }
+			else vh_count("malformed_links_refused", 1);
+			KSI_DataHash_free(root);
+			lib_aggr_obj_release_keep_list(obj);
+		}
+		KSI_HashChainLinkList_free(lst); KSI_DataHash_free(inh);
+		for (i = 0; i < n; i++) link_clear(&l[i]);
+	}
+}
+
 int main(int argc, char **argv) {
 	long long a, b, c; int i;
 	if (argc < 5) { fprintf(stderr, "usage: c03_chain <mode> <seed> <shard> <nshards> [a] [b] [c]\n"); return 2; }
@@ -1073,7 +1112,7 @@ int main(int argc, char **argv) {
 	vh_seed(g_seed * 1000003ull + g_shard * 7919ull + vh_hash_bytes(g_mode, strlen(g_mode)));
 	for (i = 0; i < NSUP; i++) { char nm[40]; snprintf(nm, sizeof nm, "alg_usable_id_%d", SUP[i]); if (g_shard == 0) vh_count(nm, 1); }
 	if (!strcmp(g_mode, "aggx")) mode_aggx((int)a, (int)b);
-	else if (!strcmp(g_mode, "aggr")) mode_aggr((uint64_t)a);
+	else if (!strcmp(g_mode, "aggr")) { mode_aggr((uint64_t)a); malformed_links(400); }
 	else if (!strcmp(g_mode, "memo")) mode_memo((uint64_t)a, (int)b, (long)c);
 	else if (!strcmp(g_mode, "calx")) mode_calx((int)a, (uint64_t)b);
 	else if (!strcmp(g_mode, "calr")) mode_calr((uint64_t)a, (int)b);
